@@ -90,6 +90,10 @@ pub struct SPlan {
     /// (only when Core::listen() runs): (speedtest?, offer h2?, opens at)
     #[serde(default)]
     pub service_sessions: Vec<(bool, bool, u64)>,
+    /// per service session: an HTTP/1.1 speedtest connection downloads /100mb.bin at 4 MB/s
+    /// instead of idling, so that a test is running when the shutdown is submitted
+    #[serde(default)]
+    pub service_busy: Vec<bool>,
 }
 
 impl Scenario for ShutdownScn {
@@ -173,7 +177,10 @@ impl Scenario for ShutdownScn {
             service_sessions: (0..if rng.chance(1, 3) { 1 + rng.usize_below(2) } else { 0 })
                 .map(|_| (rng.chance(1, 2), rng.chance(1, 2), near(&mut rng)))
                 .collect(),
+            service_busy: Vec::new(),
         };
+        let mut plan = plan;
+        plan.service_busy = plan.service_sessions.iter().map(|(speed, h2, _)| *speed && !*h2 && rng.chance(1, 2)).collect();
         to_plan(&plan)
     }
 
@@ -452,6 +459,7 @@ async fn run(plan: SPlan) -> Obs {
     // idle clients of the ping / speedtest hosts
     if plan.core_listens {
         for (k, (speed, h2, at)) in plan.service_sessions.iter().cloned().enumerate() {
+            let busy = plan.service_busy.get(k).copied().unwrap_or(false) && speed && !h2;
             let o = obs.clone();
             let seed = plan.seed;
             let until = plan.submit_at_us + plan.completion_after_us + 500_000;
@@ -466,8 +474,24 @@ async fn run(plan: SPlan) -> Obs {
                 };
                 let client: SocketAddr = format!("203.0.113.{}:44000", 120 + k).parse().unwrap();
                 match crate::patht::connect_tls(LISTEN.parse().unwrap(), client, params, Rng::new(seed ^ 0x5e ^ k as u64)).await {
-                    Ok((tls, conn)) => {
+                    Ok((mut tls, conn)) => {
                         o.lock().unwrap().services[k].0 = Some(world::now_us());
+                        if busy {
+                            use tokio::io::{AsyncReadExt, AsyncWriteExt};
+                            let _ = tls.stream.write_all(b"GET /100mb.bin HTTP/1.1\r\nHost: speed.example\r\n\r\n").await;
+                            let mut buf = vec![0u8; 4096];
+                            while world::now_us() < until {
+                                match tokio::time::timeout(Duration::from_millis(5), tls.stream.read(&mut buf)).await {
+                                    Ok(Ok(0)) | Ok(Err(_)) => break,
+                                    Ok(Ok(_)) => sleep_us(1_000).await,
+                                    Err(_) => {
+                                        if conn.endpoint_closed_at().is_some() {
+                                            break;
+                                        }
+                                    }
+                                }
+                            }
+                        }
                         // stay idle until the endpoint ends the connection
                         while world::now_us() < until && conn.endpoint_closed_at().is_none() {
                             sleep_us(500).await;
@@ -911,8 +935,11 @@ fn judge(plan: &SPlan, o: &Obs, out: &mut Outcome) {
                 }
                 continue;
             }
+            // (a download in flight towards a client reading 4 MB/s: the chunk in hand is
+            // flushed before the close)
+            let busy = plan.service_busy.get(k).copied().unwrap_or(false) && *speed && !*h2;
             match closed {
-                Some(c) if *c + eps >= ts && *c <= ts + 60_000 => {
+                Some(c) if *c + eps >= ts && *c <= ts + 60_000 + if busy { 100_000 } else { 0 } => {
                     if *c > last_finish {
                         last_finish = *c;
                         who = format!("{} session {}", kind, k);
